@@ -106,3 +106,9 @@ CASES += [
     {"name": "rounded step ratio never compared with the ratio (the repaired defect)", "kind": "mutant", "rule": "C07-I", "edits": [
         (RDMF, "        if (Nref_max < 1) or \\\n           (abs(Nref_max*sysstep - self.TimeAxis.step) > 1.0e-6*sysstep):\n            raise Exception(\"The time step of the propagation (\"\n                            +str(self.TimeAxis.step)+\" fs) has to be a whole\"\n                            +\" multiple of the time step of the relaxation\"\n                            +\" tensor (\"+str(sysstep)+\" fs)\")\n", "", 3)]},
 ]
+
+CASES += [
+    {"name": "operator-form routine advances the tensor index by one per stored step (the repaired defect)", "kind": "mutant", "rule": "C07-I", "edits": [
+        (RDMF, "                # the operators are kept at their last computed point once\n                # the cut-off (or the end of their time axis) is reached\n                indxR = min(indxR + stride, cutoff_indx - 1)\n                \n            pr.data[indx,:,:] = rho2 \n            indx += 1             \n",
+               "            pr.data[indx,:,:] = rho2 \n            indx += 1             \n            if indxR < cutoff_indx-1:\n                indxR += 1\n", 1)]},
+]
